@@ -14,7 +14,7 @@ func init() {
 	Register("C04", "exploration", func(c *Ctx) error {
 		c.Rule = "seeded tag/decorator constellations: 1-6 services, 1-4 tags, priorities from {-2^31,-5,-1,0,0,1,1,5,2^31-1} with forced ties, 1-5 decorators (wrapping, annotating, fallible) with every argument form incl. !tagged and $gontainer, spread over 1, 2 or 4 input files; services registered at run time under the tags of the declared decorators are fetched too; executed and compared with the reference container (tag order = priority desc then name asc; decorators in declaration/file order after the service's own calls; payload tag/service id/current object). distinct = distinct input files; non-trivial = at least one tagged service and (a decorator on a carried tag or a !tagged argument) and >=4 judged operations"
 		c.Assumptions = []string{"reference container engine/ref", "fixture decorators record their payload faithfully", "split files merge back to the single configuration by the documented rules (C09 checks this separately)"}
-		n := c.Pick(500, 16000)
+		n := c.Pick(500, 8000)
 		lab, err := probe.NewLab(c.W)
 		if err != nil {
 			return err
